@@ -37,7 +37,7 @@ func (e *Engine) autoTags(kind string, fn *ssa.Function) []string {
 			file = e.w.fset.Position(n.Obj().Pos()).Filename
 		}
 	}
-	key := kind + "|" + file
+	key := kind + "|" + file + "|" + shortFnName(top)
 	if t, ok := e.w.autoTagCache[key]; ok {
 		return t
 	}
@@ -58,7 +58,7 @@ func (e *Engine) autoTags(kind string, fn *ssa.Function) []string {
 		if at.Kind != kind || at.Pkg != topPkg {
 			continue
 		}
-		if at.File == "*" || strings.HasSuffix(file, at.File) {
+		if (at.Fn != "" && at.Fn == shortFnName(top)) || (at.Fn == "" && (at.File == "*" || strings.HasSuffix(file, at.File))) {
 			for _, t := range at.Tags {
 				if !seen[t] {
 					seen[t] = true
@@ -904,6 +904,22 @@ func (fx *FnExec) applyContract(st *State, callee *ssa.Function, con *FnContract
 		}
 	}
 	old := st.clone()
+	// `modifies elems <param>`: the contents of a slice argument
+	for _, m := range con.Modifies {
+		if strings.HasPrefix(m, "elems ") {
+			ex, err := parseSpecExpr(strings.TrimSpace(m[6:]))
+			if err != nil {
+				continue
+			}
+			if sv := env.eval(ex); sv != nil && len(sv.V.L) == 3 && sv.T != nil {
+				if sl, ok := sv.T.Underlying().(*types.Slice); ok {
+					for i := range e.fl.leaves(sl.Elem()) {
+						e.heapHavocRows(st, e.keyElem(sl.Elem(), i), []string{sv.V.L[0]})
+					}
+				}
+			}
+		}
+	}
 	// havoc
 	allocBefore := e.heapGet(st, e.keyAlloc())
 	if ws != nil {
@@ -936,7 +952,13 @@ func (fx *FnExec) applyContract(st *State, callee *ssa.Function, con *FnContract
 	bindArgs(env2)
 	fx.bindResults(env2, con.Results, sig, rv)
 	for _, en := range con.Ensures {
+		nerr := len(e.specErrors)
 		sv := env2.eval(en.Expr)
+		if len(e.specErrors) > nerr && con.Pkg == "extern" {
+			// an assumed clause about packages this module does not import: not applicable here (assume less)
+			e.specErrors = e.specErrors[:nerr]
+			continue
+		}
 		if sv != nil && len(sv.V.L) == 1 {
 			e.assume(st, sv.V.L[0])
 		}
@@ -970,6 +992,9 @@ func (e *Engine) calleeWriteSet(callee *ssa.Function, con *FnContract) *WriteSet
 	e.wsCache[key] = ws // recursion guard: empty while computing
 	if con.ModDeclared || callee == nil || len(callee.Blocks) == 0 {
 		for _, m := range con.Modifies {
+			if strings.HasPrefix(m, "elems ") {
+				continue
+			}
 			if strings.HasPrefix(m, "fresh ") {
 				for _, k := range e.freshTypeKeys(strings.TrimSpace(m[6:]), con.Pkg) {
 					if _, ok := ws.keys[k]; !ok {
@@ -1283,6 +1308,12 @@ func (fx *FnExec) execBuiltin(st *State, in ssa.CallInstruction, b *ssa.Builtin,
 			}
 			e.heapWrite(st, k, store(h, arr, na), arr)
 		}
+		if _, ok := e.c.decls["seqofI"]; ok && isInteger(et) {
+			ha := e.heapGet(st, e.keyElemOf(et, 0, a.L[0]))
+			hb := e.heapGet(st, e.keyElemOf(et, 0, b2.L[0]))
+			hn := e.heapGet(st, e.keyElem(et, 0))
+			e.assume(st, fmt.Sprintf("(= (seqofI (select %s %s) 0 %s) (seqI_cat (seqofI (select %s %s) %s %s) (seqofI (select %s %s) %s %s)))", hn, arr, nl, ha, a.L[0], a.L[1], n1, hb, b2.L[0], b2.L[1], n2))
+		}
 		if _, ok := e.c.decls["seqof"]; ok && isString(et) {
 			// abstract-sequence view: append concatenates
 			ha := e.heapGet(st, e.keyElemOf(et, 0, a.L[0]))
@@ -1355,6 +1386,79 @@ func (fx *FnExec) builtinModel(st *State, in ssa.CallInstruction, callee *ssa.Fu
 	case "sync.(*RWMutex).RUnlock":
 		fx.lockOp(st, args[0], "RUnlock", pos)
 		return nil, true
+	case "regexp.Compile", "regexp.MustCompile":
+		lit, ok := smtStringLiteral(args[0].L[0])
+		if !ok || !e.c.strTheory {
+			return nil, false
+		}
+		if _, err := goRegexToRegLan(lit); err != nil {
+			e.outsideSubset("regular expression outside the translated subset: " + err.Error())
+			return nil, false
+		}
+		re := e.newRef(st, "regexp")
+		e.rePat[re] = lit
+		e.noteFeature("regexp.Compile/MatchString modelled by mechanical translation of the constant pattern to an SMT regular language")
+		if key == "regexp.MustCompile" {
+			return scalar(re), true
+		}
+		return &Val{Tup: []*Val{scalar(re), scalar("0")}}, true
+	case "regexp.(*Regexp).MatchString":
+		pat, ok := e.rePat[args[0].L[0]]
+		if !ok {
+			return nil, false
+		}
+		rl, err := goRegexToRegLan(pat)
+		if err != nil {
+			return nil, false
+		}
+		return scalar(e.c.define("match", SBool, "(str.in_re "+args[1].L[0]+" "+rl+")")), true
+	case "fmt.Sprintf":
+		if !e.c.strTheory || len(args) != 2 || len(args[1].L) != 3 {
+			return nil, false
+		}
+		format, ok := smtStringLiteral(args[0].L[0])
+		if !ok || !isNumLit(args[1].L[2]) {
+			return nil, false
+		}
+		var n int
+		fmt.Sscan(args[1].L[2], &n)
+		pieces := strings.Split(format, "%s")
+		if len(pieces) != n+1 || strings.Contains(strings.Join(pieces, ""), "%") {
+			return nil, false
+		}
+		var it types.Type = types.NewInterfaceType(nil, nil)
+		if ps := callee.Signature.Params(); ps.Len() > 0 {
+			if sl, ok := ps.At(ps.Len() - 1).Type().Underlying().(*types.Slice); ok {
+				it = sl.Elem()
+			}
+		}
+		tof := e.c.fun("typeof", []Sort{SInt}, SInt)
+		ub := e.c.fun("unbox_string_0", []Sort{SInt}, "String")
+		var parts []string
+		var conds []string
+		for i := 0; i < n; i++ {
+			if pieces[i] != "" {
+				parts = append(parts, e.c.strLit(pieces[i]))
+			}
+			idx := fmt.Sprintf("(+ %s %d)", args[1].L[1], i)
+			if args[1].L[1] == "0" {
+				idx = fmt.Sprint(i)
+			}
+			el := sel(sel(e.heapGet(st, e.keyElemOf(it, 0, args[1].L[0])), args[1].L[0]), idx)
+			conds = append(conds, eq(app(tof, el), fx.typeTag(types.Typ[types.String])))
+			parts = append(parts, app(ub, el))
+		}
+		if pieces[n] != "" {
+			parts = append(parts, e.c.strLit(pieces[n]))
+		}
+		r := e.c.fresh("sprintf", "String")
+		cat := parts[0]
+		if len(parts) > 1 {
+			cat = "(str.++ " + strings.Join(parts, " ") + ")"
+		}
+		e.assume(st, implies(and(conds...), eq(r, cat)))
+		e.noteFeature("fmt.Sprintf with a constant %s-only format modelled as string concatenation")
+		return scalar(r), true
 	case "sync.NewCond":
 		v := e.freshVal(st, "cond", rt)
 		e.assume(st, not(eq(v.L[0], "0")))
@@ -1541,4 +1645,29 @@ func wrapperRecvType(f *ssa.Function) types.Type {
 		return f.Params[0].Type()
 	}
 	return nil
+}
+
+// smtStringLiteral decodes an SMT-LIB string literal term.
+func smtStringLiteral(t string) (string, bool) {
+	if len(t) < 2 || t[0] != '"' || t[len(t)-1] != '"' {
+		return "", false
+	}
+	body := t[1 : len(t)-1]
+	body = strings.ReplaceAll(body, `""`, `"`)
+	// \u{hex} escapes
+	var b strings.Builder
+	for i := 0; i < len(body); i++ {
+		if strings.HasPrefix(body[i:], "\\u{") {
+			j := strings.IndexByte(body[i:], '}')
+			if j > 0 {
+				var r rune
+				fmt.Sscanf(body[i+3:i+j], "%x", &r)
+				b.WriteRune(r)
+				i += j
+				continue
+			}
+		}
+		b.WriteByte(body[i])
+	}
+	return b.String(), true
 }
